@@ -172,11 +172,29 @@ def run_world(name, repo="/repo", tier="quick", seed=0, timeout=600):
     out = os.path.join(BUILD, f"{tag}_world.rs")
     res = dict(world=name, status="undecided", violations=[], undecided=[], obligations=[], functions=[], canaries={},
                trusted=[], verus={}, reason=None)
+    external = set()
     try:
         meta = worldgen.build(tmpl, repo, out, flags=flags)
+        # Graceful degradation: a function whose body contains a construct outside the dialect (reported by Verus as a
+        # non-proof diagnostic located in that function) is re-emitted as `external_body` — undecided for the properties
+        # it carries, while every other function of the world is still verified against its contract.
+        for _ in range(4):
+            probe_cmd = _verus_cmd(os.path.basename(out), 10, None, ["--no-verify"])
+            rc0, so0, se0, _w = _run(probe_cmd, BUILD, timeout)
+            bad = set()
+            for d in _parse_diags(se0 or ""):
+                c = classify(d, meta, out)
+                if c and c["kind"] == "undecided" and c.get("fn") and not any(d.get("message", "").startswith(m) for m in VIOLATION_MSGS):
+                    bad.add(c["fn"])
+            bad -= external
+            if not bad:
+                break
+            external |= bad
+            meta = worldgen.build(tmpl, repo, out, flags=flags, external=external)
     except (ExtractError, worldgen.WorldError) as e:
         res["reason"] = f"extraction: {e}"
         return res
+    res["external"] = sorted(external)
     res["functions"] = [f for f in meta["functions"] if not f.get("shadow")]
     shadow = {f["id"] for f in meta["functions"] if f.get("shadow")}
     rlimit = 30 if tier == "quick" else 60
@@ -229,7 +247,7 @@ def run_world(name, repo="/repo", tier="quick", seed=0, timeout=600):
                     del all_viol[ob]
     # canary run (vacuity guard): every canary must fail
     cout = os.path.join(BUILD, f"{tag}_canary.rs")
-    cmeta = worldgen.build(tmpl, repo, cout, canary_mode=True, flags=flags)
+    cmeta = worldgen.build(tmpl, repo, cout, canary_mode=True, flags=flags, external=external)
     ctext = open(cout).read()
     cmd = _verus_cmd(os.path.basename(cout), 10, None, ["--verify-module", "canary"])
     rc, so, se, wall = _run(cmd, BUILD, timeout)
@@ -277,6 +295,8 @@ def run_world(name, repo="/repo", tier="quick", seed=0, timeout=600):
         violations.append(dict(obligation=ob, fn=c["fn"], tags=o["tags"], msg=c["msg"], rendered=c["rendered"], where=c.get("where")))
     # a function with any failure: its other obligations are not established by this run either, but Verus
     # reports each failed clause separately (--multiple-errors), so the remaining ones stay discharged.
+    for fid in external:
+        all_und.append(dict(msg="body contains a construct outside the Verus dialect; function left unverified (external_body)", fn=fid, reason="dialect"))
     for u in all_und:
         fn = u.get("fn")
         if fn:
@@ -286,7 +306,7 @@ def run_world(name, repo="/repo", tier="quick", seed=0, timeout=600):
     res["obligations"] = obligations
     res["violations"] = violations
     res["undecided"] = [dict(msg=u.get("msg"), fn=u.get("fn"), reason=u.get("reason"), rendered=(u.get("rendered") or "")[:600]) for u in all_und]
-    n_fn = sum(1 for f in meta["functions"] if f.get("kind") == "fn")
+    n_fn = sum(1 for f in meta["functions"] if f.get("kind") == "fn" and not f.get("external"))
     if not violations and not all_und and not shadow:
         if (res["verus"].get("verified") or 0) < n_fn or (res["verus"].get("errors") or 0) != 0:
             res["undecided"].append(dict(msg="verified-function count below extracted-function count", reason="vacuity guard (i)"))
